@@ -548,9 +548,11 @@ class Interp(object):
                 return AND(EQ(a.present, b.present), IMP(a.present, EQ(a.t, b.t)))
             raise Unsupported("== between %r and %r" % (a, b))
         if isinstance(a, Num) and isinstance(b, Num):
-            la, lb = lit_int(a.t), lit_int(b.t)
-            if la is not None and lb is not None:
-                return TRUE if la == lb else FALSE          # two integer literals (no infeasible fork on `2 == 1`)
+            if getattr(a, "exact", False) or getattr(b, "exact", False):
+                # the size of a set of concrete strings (lib_split) against a literal: decided here (no infeasible fork)
+                la, lb = lit_int(a.t), lit_int(b.t)
+                if la is not None and lb is not None:
+                    return TRUE if la == lb else FALSE
             return EQ(a.t, b.t)
         if isinstance(a, Bool) and isinstance(b, Bool):
             return EQ(a.t, b.t)
@@ -629,6 +631,10 @@ class Interp(object):
                 # an abstract object compared with a python builtin (`container == tuple`): it may be that very builtin
                 f = self.reg.ufun("obj_is_builtin_%s" % y.name, ["Obj"], "Bool")
                 return T("(%s %s)" % (f, x.t.s), "Bool")
+        def stringy(x):
+            return isinstance(x, Str) or (isinstance(x, Opaque) and x.sort == "Key")
+        if (stringy(a) and isinstance(b, (Num, Bool))) or (stringy(b) and isinstance(a, (Num, Bool))):
+            return FALSE          # a string never equals a number
         raise Unsupported("== between %r and %r" % (a, b))
 
     def v_eq(self, st, v, other):
